@@ -65,6 +65,8 @@ func Visible(u Unit, rc bool) bool {
 	return true
 }
 
+var tsFindingReports int
+
 // Runner executes op lines against the real code and evaluates the oracles.
 type Runner struct {
 	Run *hlib.Run
@@ -181,7 +183,19 @@ func (rn *Runner) Step(r *Resp) (sarama.VerifParseResult, string) {
 		return res, ans
 	}
 	in := rn.caseInput()
-	fail := func(sig, detail string) { rn.failed = true; rn.Run.IOFail(sig, in, detail) }
+	fail := func(sig, detail string) {
+		rn.failed = true
+		if sig == "legacy-v1-wrapper-logappend-timestamp-ignored" {
+			// known finding of the pinned tree: report a few witnesses only, so that the cap on recorded oracle
+			// failures is left to anything else
+			rn.Run.Count("oracle-" + sig)
+			tsFindingReports++
+			if tsFindingReports > 3 {
+				return
+			}
+		}
+		rn.Run.IOFail(sig, in, detail)
+	}
 	verdict := strings.Fields(ans)[0]
 	switch r.Kind {
 	case 'T', 'M', 'E':
